@@ -146,3 +146,60 @@ def chiplet_boundary_programs(thorough=False):
     not the executed cycles - decide the padded length (each MLOAD is one cycle and one memory row)"""
     ms = list(range(50, 60)) + list(range(107, 116)) + list(range(219, 228)) if thorough else [54, 55, 56, 111]
     return [{"src": "begin\n  " + "mem_load " * m + "\nend\n", "kernel": None, "inputs": [0], "adv": [], "class": "chiplets-%d" % m} for m in ms]
+
+
+def callee_shape_programs():
+    """every way of invoking a procedure (exec, call, syscall, dynexec, dyncall) x every shape of the callee's root block
+    (span, join, split, loop, call, dyn, dyncall, syscall): the callee hash a CALL / SYSCALL / DYN row carries is then the
+    hash of each kind of node, including the constant hash of a dyn node"""
+    shapes = {
+        # name: (body, what the caller puts on the stack before invoking, what it removes afterwards)
+        "span": ("push.1 drop", "", ""),
+        "join": ("push.1 drop push.1 if.true push.2 drop else push.3 drop end", "", ""),
+        "split": ("if.true push.2 drop else push.3 drop end", "push.1", ""),
+        "loop": ("while.true push.0 end", "push.1", ""),
+        "call": ("call.g", "", ""),
+        "dyn": ("dynexec", "procref.g", "dropw"),
+        "dyncall": ("dyncall", "procref.g", "dropw"),
+        "syscall": ("syscall.k2", "", ""),
+    }
+    out = []
+    for sh, (body, pre, post) in shapes.items():
+        for inv in ("exec", "call", "syscall", "dynexec", "dyncall"):
+            if inv == "syscall" and sh in ("syscall", "call", "dyncall"):
+                continue                      # a syscall cannot create a new context (negative scenarios of C07)
+            if inv in ("dynexec", "dyncall") and sh in ("split", "loop", "dyn", "dyncall"):
+                continue                      # the target hash stays on top of the stack: it would be taken as the condition / as the next target
+            kernel = "export.k2\n  push.7 drop\nend\n"
+            helper = "proc.g\n  push.5 drop\nend\n"
+            if inv == "syscall":
+                kernel += "export.f\n  %s\nend\n" % body
+                procs = helper
+                call = "%s syscall.f %s" % (pre, post)
+            else:
+                procs = helper + "proc.f\n  %s\nend\n" % body
+                if inv in ("exec", "call"):
+                    call = "%s %s.f %s" % (pre, inv, post)
+                else:
+                    # the target hash goes on top of whatever the callee needs
+                    call = "%s procref.f %s dropw %s" % (pre, inv, post)
+            # a kernel procedure that calls `g` needs it in its own module; dyn targets must exist in the program
+            if inv == "syscall" and sh == "call":
+                kernel = "proc.g\n  push.5 drop\nend\n" + kernel
+            src = "%sbegin\n  %s\nend\n" % (procs, " ".join(call.split()))
+            out.append({"src": src, "kernel": kernel, "inputs": [], "adv": [], "class": "callee-%s-%s" % (inv, sh)})
+    return out
+
+
+def fri_programs():
+    """FRIE2F4 for each domain segment: the previous layer's value must equal the query value of that segment"""
+    out = []
+    v = [3, 4, 5, 6, 7, 8, 9, 10]           # v0 .. v7
+    for seg in range(4):
+        pe0, pe1 = v[2 * seg], v[2 * seg + 1]
+        # stack, top first: v7 .. v0, f_pos, d_seg, poe, pe1, pe0, a1, a0, cptr ; one more element below to be shifted in
+        top_first = list(reversed(v)) + [11, seg, 7 + seg, pe1, pe0, 13, 14, 1000, 55]
+        rev = list(reversed(top_first))
+        push = " ".join("push." + ".".join(str(x) for x in rev[i:i + 8]) for i in range(0, len(rev), 8))
+        out.append({"src": "begin\n  %s fri_ext2fold4 %s\nend\n" % (push, "drop " * 16), "kernel": None, "inputs": [], "adv": [], "class": "fri-seg%d" % seg})
+    return out
